@@ -18,6 +18,17 @@ def containers(g):
     def add(o, what):
         if o is not None:
             out[id(o)] = what
+
+    def deep(o, what, depth=0):
+        """every mutable container nested inside per-node data (extras, ttc, tags)"""
+        if isinstance(o, dict):
+            add(o, what)
+            for k, v in o.items():
+                deep(v, f'{what}[{k!r}]', depth + 1)
+        elif isinstance(o, list):
+            add(o, what)
+            for k, v in enumerate(o):
+                deep(v, f'{what}[{k}]', depth + 1)
     add(g.nodes, 'graph.nodes')
     add(g.attackers, 'graph.attackers')
     for n in g.nodes:
@@ -25,17 +36,21 @@ def containers(g):
         add(n.children, f'node {n.id}.children')
         add(n.parents, f'node {n.id}.parents')
         add(n.compromised_by, f'node {n.id}.compromised_by')
-        add(n.tags if isinstance(n.tags, (list, dict)) else None, f'node {n.id}.tags')
-        add(n.extras, f'node {n.id}.extras')
-        if isinstance(n.ttc, dict):
-            add(n.ttc, f'node {n.id}.ttc')
-            if isinstance(n.ttc.get('arguments'), list):
-                add(n.ttc['arguments'], f'node {n.id}.ttc.arguments')
+        deep(n.tags if isinstance(n.tags, (list, dict)) else None, f'node {n.id}.tags')
+        deep(n.extras, f'node {n.id}.extras')
+        deep(n.ttc if isinstance(n.ttc, dict) else None, f'node {n.id}.ttc')
     for a in g.attackers:
         add(a, f'attacker {a.id}')
         add(a.entry_points, f'attacker {a.id}.entry_points')
         add(a.reached_attack_steps, f'attacker {a.id}.reached_attack_steps')
     return out
+
+
+def decorate(g):
+    """structured (nested) extras on every second node: a shallow copy would share the inner values"""
+    for k, n in enumerate(g.nodes):
+        if k % 2 == 0 and isinstance(n.extras, dict) and 'pos' not in n.extras:
+            n.extras['pos'] = {'x': k, 'path': [k, {'deep': k}]}
 
 
 def counters(g):
@@ -52,6 +67,11 @@ def apply_edit(g, kind):
         n.tags.append('EDITED')
     elif kind == 'edit_extras':
         n.extras['edited'] = {'k': 1}
+        for m in g.nodes:                       # in-place update of values nested inside extras
+            pos = m.extras.get('pos') if isinstance(m.extras, dict) else None
+            if isinstance(pos, dict):
+                pos['x'] = 'EDITED'
+                pos.setdefault('path', []).append('EDITED')
     elif kind == 'edit_ttc':
         if not isinstance(n.ttc, dict):
             return False
@@ -75,6 +95,7 @@ def check_state(system, hist, stats):
         viols.append(common.Violation(key, what, case=dict(case, **kw.pop('extra', {})), **kw).to_json())
     c = engine_hist.replay(system, hist)
     orig = c.g
+    decorate(orig)
     try:
         cp = copy.deepcopy(orig)
     except Exception as e:  # noqa: BLE001
@@ -97,7 +118,7 @@ def check_state(system, hist, stats):
     shared = set(containers(orig)) & set(containers(cp))
     if shared:
         what = sorted(containers(cp)[i] for i in shared)
-        kinds = sorted({w.split('.')[-1] if '.' in w else w.split(' ')[0] for w in what})
+        kinds = sorted({(w.split('.')[1].split('[')[0] + ('(nested)' if '[' in w else '')) if '.' in w else w.split(' ')[0] for w in what})
         V('copy_shares_objects:' + '+'.join(kinds), 'the copy shares mutable objects with the original', observed=what[:8])
     for n in cp.nodes:
         if n.asset is not None and not any(n.asset is a for a in (orig.model.assets if orig.model else [])):
@@ -108,6 +129,7 @@ def check_state(system, hist, stats):
         for side in ('copy', 'original'):
             c2 = engine_hist.replay(system, hist)
             a = c2.g
+            decorate(a)
             b = copy.deepcopy(a)
             target, other = (b, a) if side == 'copy' else (a, b)
             before = refgraph.observe(other)
